@@ -20,9 +20,20 @@ from impl_graph import FACTORIES, QUERY, PRED, exn_name  # noqa: E402
 import impl_C16  # noqa: E402  (documents)
 
 
-def build(case):
+SHARED = {k: f() for k, f in FACTORIES.items()}      # one factory instance per kind, reused for every graph of the run
+
+
+def build(case, shared=False):
     edges = [(TermId.from_curie(s), TermId.from_curie(o)) for s, o in case['edges']]
-    return FACTORIES[case['factory']]().create_graph(edges)
+    if not shared:
+        return FACTORIES[case['factory']]().create_graph(edges)
+    # a factory that has built other graphs before: first a primer graph whose LAST edge has the subject of this
+    # graph's FIRST edge (at another index), then the graph itself - any state kept on the factory shows
+    fac = SHARED[case['factory']]
+    first_sub = edges[0][0]
+    primer = [(TermId.from_curie('AA:0'), TermId.from_curie('ZZ:9')), (TermId.from_curie('AA:1'), TermId.from_curie('ZZ:9')), (first_sub, TermId.from_curie('ZZ:9'))]
+    fac.create_graph(primer)
+    return fac.create_graph(edges)
 
 
 def run_query(g, q):
@@ -84,7 +95,7 @@ def digest(obj, depth=0, seen=None):
 
 def observe_graph_case(case):
     rng = random.Random(case['seed'])
-    g = build(case)
+    g = build(case, shared=True)
     fresh = build(case)
     direct, diag = [], []
     queries = case['queries']
